@@ -616,6 +616,129 @@ class Ctx:
                 break
             open(trace, "w").write("\n".join(rest) + "\n")
 
+    WRAPPED = ["ValuesForPath", "ValuesForKey", "PathsForKey", "PathForKeyShortest", "UpdateValuesForPath", "SetValueForPath",
+               "Remove", "RenameKey", "LeafNodes", "NewMap", "Xml"]
+
+    def _wrapped_repo_run(self, timeout_s=900):
+        """the repository's own test suite in a scratch copy of the working tree whose methods WRAPPED have been renamed
+        mechanically, with logging wrappers of the original names (harness/repotrace/zz_verif_wrap_test.go.txt) in their place:
+        no hook in the repository is needed.  Returns (raw log, go test rc); run once per check process."""
+        if getattr(self, "_wrapped", None):
+            return self._wrapped
+        repo = os.environ.get("VERIF_REPO", "/repo")
+        work = tempfile.mkdtemp(prefix="repocopy_", dir=self.scratch)
+        r = run(["rsync", "-a", "--exclude", ".git", repo + "/", work + "/"], stdout=subprocess.PIPE, stderr=subprocess.STDOUT, text=True)
+        if r.returncode != 0:
+            raise MachineryError("cannot copy the repository: " + r.stdout[-500:])
+        import glob as _glob
+        srcs = {f: open(f).read() for f in _glob.glob(os.path.join(work, "*.go")) if not f.endswith("_test.go")}
+        for t in self.WRAPPED:
+            pat = re.compile(r"^func \(mv Map\) %s\(" % t, re.M)
+            hits = [f for f, src in srcs.items() if pat.search(src)]
+            if len(hits) != 1 or len(pat.findall(srcs[hits[0]])) != 1:
+                shutil.rmtree(work, ignore_errors=True)
+                raise MachineryError("cannot wrap Map.%s: %d definitions found in the working tree" % (t, len(hits)))
+            srcs[hits[0]] = pat.sub("func (mv Map) verifInner%s(" % t, srcs[hits[0]])
+            open(hits[0], "w").write(srcs[hits[0]])
+        for n in ("zz_verif_wrap_test.go", "zz_verif_trace_test.go"):
+            shutil.copy(os.path.join(VERIF, "harness", "repotrace", n + ".txt"), os.path.join(work, n))
+        raw = os.path.join(self.scratch, "repo_praw.ndjson")
+        r = run(["timeout", str(timeout_s), "go", "test", "-tags", "verif", "-vet=off", "-count=1", "."], cwd=work,
+                env=dict(GOENV, MXJ_VERIF_PTRACE=raw), stdout=subprocess.PIPE, stderr=subprocess.STDOUT, text=True)
+        shutil.rmtree(work, ignore_errors=True)
+        if "[build failed]" in r.stdout or "[setup failed]" in r.stdout:
+            raise MachineryError("the wrapped copy of the repository does not build: " + r.stdout[-1500:])
+        if not os.path.exists(raw) or os.path.getsize(raw) == 0:
+            raise MachineryError("the repository's tests logged no wrapped call (go test rc=%s): %s" % (r.returncode, r.stdout[-1500:]))
+        self._wrapped = (raw, r.returncode)
+        return self._wrapped
+
+    def repo_tests_enc_trace(self, res):
+        """code -> spec through the repository's OWN tests, encoder side: every Map.Xml(rootTag...) call made while the
+        suite runs (wrapped method, see _wrapped_repo_run) as an event encx of Trace_Xml.tla -- exact bytes under the
+        registers logged with the call."""
+        raw, rc = self._wrapped_repo_run()
+        sd = prepare_spec_dir(self.scratch)
+        trace = os.path.join(sd, "trace_xml.ndjson")
+        summ = os.path.join(self.scratch, "xmlevents-enc.summary.json")
+        r2 = run([self.harness(), "xmlevents", raw, trace, summ], stdout=subprocess.PIPE, stderr=subprocess.STDOUT, text=True)
+        if r2.returncode != 0 or not os.path.exists(summ):
+            raise MachineryError("xmlevents failed: " + r2.stdout[-1500:])
+        summary = json.load(open(summ))
+        if summary.get("cases", 0) == 0:
+            raise MachineryError("no Map.Xml call of the repository's tests is in the specification's domain")
+        summary.setdefault("extra", {})["go_test_rc"] = rc
+        res.add_summary("xmlrepo-enc-trace", summary, count_as_traces=True)
+        tries = 0
+        while True:
+            info, rejected = validate_trace_only(self.scratch, "Trace_Xml.tla", "Trace_Xml.cfg", 600)
+            info["cmd"] = "go test -tags verif (repository's tests, wrapped Map.Xml) | mxjconf xmlevents | tlc -config Trace_Xml.cfg Trace_Xml.tla"
+            res.add_tlc(info)
+            if rejected is None or tries >= 3:
+                break
+            tries += 1
+            lines = open(trace).read().splitlines()
+            ev = json.loads(lines[rejected - 1])
+            res.mismatches.append(("xml", {"sig": "trace:xmlrepo:encx", "detail": "Map.Xml call of the repository's tests rejected by Trace_Xml.tla: options %s, Map %s, bytes %s"
+                                           % (json.dumps(ev.get("o")), json.dumps(ev.get("m"))[:400], json.dumps(ev.get("x"))[:300]),
+                                           "case": {"session": [{"op": "reset"}, ev]}}, 1))
+            rest = lines[:rejected - 1] + lines[rejected:]
+            if not rest:
+                break
+            open(trace, "w").write("\n".join(rest) + "\n")
+
+    def repo_tests_path_trace(self, res, ops):
+        """code -> spec through the repository's OWN tests, query / update side (wrapped methods, see _wrapped_repo_run).
+        `mxjconf pathevents` parses the argument strings (independently of the package, plainly well-formed subset) into
+        sessions of Trace_Path.tla; `ops` selects the event kinds this property validates."""
+        raw, rc = self._wrapped_repo_run()
+        sd = prepare_spec_dir(self.scratch)
+        trace = os.path.join(sd, "trace_path.ndjson")
+        allev = os.path.join(self.scratch, "repo_pall.ndjson")
+        summ = os.path.join(self.scratch, "pathevents.summary.json")
+        r2 = run([self.harness(), "pathevents", raw, allev, summ], stdout=subprocess.PIPE, stderr=subprocess.STDOUT, text=True)
+        if r2.returncode != 0 or not os.path.exists(summ):
+            raise MachineryError("pathevents failed: " + r2.stdout[-1500:])
+        # sessions are [reset, call]: keep those whose call is one of `ops`
+        lines = open(allev).read().splitlines()
+        keep, kept_by_op = [], {}
+        for i in range(0, len(lines) - 1, 2):
+            op = json.loads(lines[i + 1]).get("op")
+            if op in ops:
+                keep += [lines[i], lines[i + 1]]
+                kept_by_op[op] = kept_by_op.get(op, 0) + 1
+        if not keep:
+            raise MachineryError("no %s call of the repository's tests is in the specification's domain" % "/".join(ops))
+        open(trace, "w").write("\n".join(keep) + "\n")
+        summary = json.load(open(summ))
+        summary["cases"] = len(keep) // 2
+        summary["distinct_nontrivial"] = min(summary.get("distinct_nontrivial", 0), summary["cases"])
+        summary.setdefault("extra", {})["go_test_rc"] = rc
+        for op, cnt in kept_by_op.items():
+            summary["extra"]["validated_here:" + op] = cnt
+        res.add_summary("pathrepo-trace", summary, count_as_traces=True)
+        tries = 0
+        while True:
+            info, rejected = validate_trace_only(self.scratch, "Trace_Path.tla", "Trace_Path.cfg", 600)
+            info["cmd"] = "go test -tags verif (repository's tests, wrapped methods) | mxjconf pathevents | tlc -config Trace_Path.cfg Trace_Path.tla"
+            res.add_tlc(info)
+            if rejected is None or tries >= 3:
+                break
+            tries += 1
+            lines = open(trace).read().splitlines()
+            idx = rejected - 1
+            if json.loads(lines[idx]).get("op") == "reset":
+                raise MachineryError("Trace_Path.tla rejected a reset event of the repository's tests: " + lines[idx][:300])
+            ev = json.loads(lines[idx])
+            session = [json.loads(lines[idx - 1]), ev]
+            res.mismatches.append(("path", {"sig": "trace:pathrepo:%s" % ev.get("op"),
+                                            "detail": "call of the repository's tests rejected by Trace_Path.tla: %s on %s" % (json.dumps(ev)[:500], lines[idx - 1][:300]),
+                                            "case": {"session": session}}, 1))
+            rest = lines[:idx - 1] + lines[idx + 1:]
+            if not rest:
+                break
+            open(trace, "w").write("\n".join(rest) + "\n")
+
     def harness_cmd(self, args):
         """runs an auxiliary harness command inside the scratch copy of spec/ (e.g. generated constants modules)"""
         sd = prepare_spec_dir(self.scratch)
